@@ -20,6 +20,9 @@ Strategies (Hypothesis, construction not rejection)
             (``program.conflict`` = {"kind","placement","swap","files","names","expected":[exception class names], ...})
 Plain builders (same code, usable without Hypothesis: pass a Chooser)
     build_program(ch, **kw), build_layout_program(ch, **kw), RandomChooser(seed), HypChooser(draw)
+    (HypChooser draws uniform integers from base-16 digits - Hypothesis' own integers are size-biased - and routes
+    cosmetic choices (identifier spelling, concrete id values, comments, layout of the text) through ``ch.cos``, a
+    pseudo-random stream seeded by one drawn integer: ~230 draws per closure instead of ~1700)
     random_program(seed, **kw)  = build_program(RandomChooser(seed), **kw)
 Transformations (each returns a NEW Program, the argument is never modified; ``ch`` is a Chooser)
     inject_conflict(program, kind, placement, ch, swap=False, variant=None) -> Program | None
